@@ -1,4 +1,7 @@
 import AutoVerif.Drv.C04
+import AutoVerif.Drv.C01
+import AutoVerif.Drv.C02
+import AutoVerif.Drv.C05
 /-
 `drv`: JSON lines in (`{"prop","case","input","impl"}`), JSON lines out
 (`{"case","agree","spec_model","spec_impl",…}`).  For each case the model's
@@ -10,6 +13,9 @@ open Lean AutoVerif AutoVerif.Codec
 def dispatch (prop : String) (input impl : Json) : R Reply :=
   match prop with
   | "C04" => C04.handle input impl
+  | "C01" => C01.handle input impl
+  | "C02" => C02.handle input impl
+  | "C05" => C05.handle input impl
   | _ => throw s!"unknown property {prop}"
 
 def handleLine (line : String) : String :=
